@@ -123,6 +123,20 @@ def gen_cases(rng, tier, count=None):
         c = gen.algo_case(rng, a, tier, n=int(rng.integers(100, 600)), fams=fams, dim=int(rng.integers(1, 3)))
         c["params"]["rhomax"] = float(rng.uniform(0.98, 0.999))
         cases.append(c)
+    for i in range(9 if tier == "quick" else 90):
+        # very deep single paths: rho close to 1 (T-HOO's depth bound in the hundreds), tiny HCT/VHCT thresholds, and a
+        # reward history that keeps rewarding one child and punishing its sibling
+        a = ["T_HOO", "HCT", "VHCT"][i % 3]
+        n = int(rng.integers(1100, 1500))
+        c = gen.algo_case(rng, a, tier, n=n, T=n, fams=["alt010", "alt010", "altext"], dim=1,
+                          part=str(rng.choice(["Bin", "K2", "RBin", "K3"])))
+        c["params"]["rho"] = float(rng.uniform(0.994, 0.9995))
+        c["params"]["nu"] = float(10 ** rng.uniform(0, 1))
+        if "c" in c["params"]:
+            c["params"]["c"] = float(10 ** rng.uniform(-3, -2))
+            c["params"]["delta"] = 0.01
+        c["_cost"] = 25.0
+        cases.append(c)
     light = ("SOO", "DOO", "DOO_delta", "StoSOO", "SequOOL", "StroquOOL", "Zooming")
     for c in cases:
         if (c["n"] <= 333 or (c["algo"] in light and c["n"] <= 1300)) and rng.random() < 0.5:
